@@ -301,6 +301,20 @@ func main() {
 	nameFam := family{long: []string{"s", "t", "v", "w", "x.y", "%2F"}, longLen: 4, full: []string{"s"}, fullLen: 1, methods: []string{"GET", "POST", "get", "HEAD"},
 		mAlpha: []string{"s", "v", "x.y"}, mLen: 3, suffixes: []string{"", "/"}, wrongLen: 1, longMeths: []string{"GET"}}
 
+	// every Swagger verb on every template of the universe: each verb alone, and all seven together
+	verbs := []string{"GET", "PUT", "POST", "DELETE", "OPTIONS", "HEAD", "PATCH"}
+	var verbDescs []Desc
+	for _, t := range universe {
+		var all []OpC
+		for _, v := range verbs {
+			verbDescs = append(verbDescs, Desc{Base: "", Ops: []OpC{{Method: v, Template: t}}})
+			all = append(all, OpC{Method: v, Template: t})
+		}
+		verbDescs = append(verbDescs, Desc{Base: "/api", Ops: all})
+	}
+	verbFam := family{long: []string{"a", "b", "c", "x", "x.y"}, longLen: 3, full: fullAlpha, fullLen: 1, methods: allMethods,
+		mAlpha: []string{"a", "b", "c", "x"}, mLen: 2, suffixes: []string{"", "/"}, wrongLen: 1, specials: specials, longMeths: []string{"GET", "OPTIONS"}}
+
 	var sweeps []sweep
 	if r.Thorough() {
 		famA := family{long: longAlpha[:12], longLen: 3, full: fullAlpha, fullLen: 2, methods: []string{"GET", "POST", "get", "HEAD"},
@@ -329,6 +343,7 @@ func main() {
 		nd = append(nd, nameDescs(nameTemplates(nameShapes2[:1], names), bases("/api"))...)
 		nd = append(nd, swappedSiblingDescs(names, bases(""))...)
 		sweeps = append(sweeps, sweep{"placeholder-names", "routes", nd, nameFam})
+		sweeps = append(sweeps, sweep{"every-verb-every-template", "routes", verbDescs, verbFam})
 	} else {
 		famA := family{long: longAlpha[:10], longLen: 3, full: fullAlpha, fullLen: 2, methods: []string{"GET", "POST", "get", "HEAD"},
 			mAlpha: []string{"a", "b", "x", "x.y"}, mLen: 2, suffixes: []string{"", "/", "//", "/.", "?q=/a"}, wrongLen: 1, specials: specials, longMeths: []string{"GET"}}
@@ -352,6 +367,7 @@ func main() {
 		qf.long = []string{"s", "t", "v", "x.y", "%2F"}
 		qf.mLen = 2
 		sweeps = append(sweeps, sweep{"placeholder-names", "routes", nd, qf})
+		sweeps = append(sweeps, sweep{"every-verb-every-template", "routes", verbDescs, verbFam})
 	}
 	r.Set("template_universe", universe)
 	r.Set("template_universe_methods_sweep", small)
@@ -360,6 +376,7 @@ func main() {
 	r.Set("request_methods", allMethods)
 	r.Set("template_universe_partial_segment_sweep", compU)
 	r.Set("segment_alphabet_partial_segment_sweep", compAlpha)
+	r.Set("spec_verbs_every_verb_sweep", verbs)
 	r.Set("placeholder_names", names)
 	r.Set("placeholder_name_shapes", append(append([]string{}, nameShapes2...), nameShapes3...))
 	r.Set("placeholder_name_triples", nameTriples)
